@@ -160,11 +160,11 @@ fn record(args: &[String]) {
                     d
                 });
                 if let Ok(d) = r {
-                    // stay inside C01's domain: distinct object numbers, max_id not below any number
+                    // stay inside C01's domain: distinct object numbers (a file has one entry per number)
                     let mut nums: Vec<u32> = d.objects.keys().map(|k| k.0).collect();
                     nums.sort();
                     let distinct = nums.windows(2).all(|w| w[0] != w[1]);
-                    if distinct && nums.last().map_or(true, |m| *m <= d.max_id) {
+                    if distinct {
                         doc = d;
                     }
                 }
@@ -195,6 +195,10 @@ fn record(args: &[String]) {
             d.set((0..c).map(|i| b"keyK"[i % 4]).collect::<Vec<u8>>(), Object::Array((0..c * 2).map(|i| Object::Integer(i as i64 - 300)).collect()));
             doc.objects.insert((last + 1, 0), Object::Stream(lopdf::Stream::new(d, gen::long_bytes(&mut rng, c * 16 + (case as usize % 3)))));
             doc.max_id = last + 1;
+        }
+        // objects stored with set_object / direct inserts do not maintain max_id: every seventh document has a stale one
+        if case % 7 == 4 {
+            doc.max_id = rng.below(doc.max_id as usize + 1) as u32;
         }
         let fmt = if case % 2 == 0 { "table" } else { "stream" };
         doc.reference_table.cross_reference_type =
@@ -252,7 +256,7 @@ fn record(args: &[String]) {
             if let Ok(mut m) = edited {
                 let mut nums: Vec<u32> = m.objects.keys().map(|k| k.0).collect();
                 nums.sort();
-                if nums.windows(2).all(|w| w[0] != w[1]) && nums.last().map_or(true, |x| *x <= m.max_id) {
+                if nums.windows(2).all(|w| w[0] != w[1]) {
                     let before = doc_to_tla(&m);
                     match save(&mut m) {
                         Ok(bytes) => {
